@@ -7,7 +7,8 @@ from mc.ref import formula as R
 
 PROP = 'C13'
 RULE = ('programs: every depth-1 construct {IF/2, IF/3, IFS with 1, 2 and 3 pairs, IFERROR} over the leaf kinds {prime number, '
-        'failing expression 1/0, cell holding #N/A} in every value position (129 nests); depth 2 = every depth-1 construct with '
+        'failing expressions 1/0 (ZeroDivisionError), MONTH("x") (AttributeError), VLOOKUP beyond its table (IndexError), cell '
+        'holding #N/A} in every value position (210 nests); depth 2 = every depth-1 construct with '
         'one value position replaced by any depth-1 construct (the other positions range over the leaf kinds); depth 3 '
         '(thorough) = IF/3, IFS/2 pairs and IFERROR with one position replaced by any depth-2 nest, all over the leaf kinds '
         '{prime, failing}; every depth-1 nest in all '
@@ -22,6 +23,7 @@ ASSUMPTIONS = ['conditions are booleans, numbers or blank (text conditions and e
 
 PRIMES = [2, 3, 5, 7, 11, 13, 17, 19, 23, 29, 31, 37, 41, 43, 47, 53, 59, 61, 67, 71, 73, 79, 83, 89, 97]
 LEAF_KINDS = ['P', 'F', 'E']
+LEAF_KINDS_1 = ['P', 'F', 'E', 'A', 'I']   # depth-1 constructs also range over failures of other exception families
 CONTEXTS = ['{}', '1+{}', '{}+1', '2*{}', '-{}', '{}&"x"', '{}=3', 'SUM({},1)', 'IF({}>0,"P","N")', 'ROUND({},0)']
 CNAMES = ['bare', '1+n', 'n+1', '2*n', '-n', 'n&x', 'n=3', 'SUM(n,1)', 'IF(n>0)', 'ROUND(n,0)']
 COND_COLS = ['C', 'D', 'E', 'F', 'G', 'H', 'I', 'J', 'K', 'L', 'M', 'N']
@@ -34,7 +36,7 @@ CONSTRUCTS = [('IF', 1), ('IF', 2), ('IFS', 1), ('IFS', 2), ('IFS', 3), ('IFERRO
 def depth1():
     out = []
     for name, k in CONSTRUCTS:
-        for leaves in itertools.product(LEAF_KINDS, repeat=k):
+        for leaves in itertools.product(LEAF_KINDS_1, repeat=k):
             out.append((name, [('L', x) for x in leaves]))
     return out
 
@@ -66,7 +68,9 @@ def render(nest):
             if n[1] == 'P':
                 st['p'] += 1
                 return str(PRIMES[st['p'] - 1])
-            return '1/0' if n[1] == 'F' else 'B@0'
+            # F: ZeroDivisionError, A: AttributeError (MONTH of a text), I: IndexError (result column beyond the table),
+            # E: a cell holding the error value #N/A
+            return {'F': '1/0', 'E': 'B@0', 'A': 'MONTH("x")', 'I': 'VLOOKUP(2,Y@0:Y@0,5,0)'}[n[1]]
         name, vals = n
         if name == 'IF':
             c = cond()
@@ -84,6 +88,10 @@ def render(nest):
         return COND_COLS[st['c'] - 1] + '@0'
 
     return go(nest), st['c']
+
+
+# the two failing leaves that are function calls: in the reference they simply are errors
+FAILING = {'MONTH': lambda env, args: R.Err('VALUE'), 'VLOOKUP': lambda env, args: R.Err('REF')}
 
 
 def assignments(k):
@@ -148,7 +156,7 @@ def run_nests(cases, stats):
         nest = _tup(c['nest'])
         text, k = render(nest)
         formula = '=' + CONTEXTS[c['ctx']].format(text)
-        items.append({'f': {'A@0': formula, 'Z@0': '=' + text}, 'cells': {'B@0': '#N/A'}})
+        items.append({'f': {'A@0': formula, 'Z@0': '=' + text}, 'cells': {'B@0': '#N/A', 'Y@0': 2}})
         metas.append((nest, text, k, formula))
     comps = D.compile_items(items, stats=stats, batch=60)
     vio = []
@@ -164,10 +172,10 @@ def run_nests(cases, stats):
             cells = {('S', 'B', 1): R.Err('NA')}
             for col, v in zip(COND_COLS, vals):
                 cells[('S', col, 1)] = v
-            env = R.Env(cells)
+            env = R.Env(cells, funcs=FAILING)
             try:
                 bare = R.evaluate(ast_bare, env)
-                want = bare if c['ctx'] == 0 else (None if isinstance(bare, R.Err) else R.evaluate(ast_ctx, R.Env(cells)))
+                want = bare if c['ctx'] == 0 else (None if isinstance(bare, R.Err) else R.evaluate(ast_ctx, R.Env(cells, funcs=FAILING)))
             except R.Unspecified:
                 stats['x:not_judged'] += 1
                 continue
